@@ -143,24 +143,21 @@ Fixpoint set_key (k : nat) (v : rv) (m : list (nat * rv)) : list (nat * rv) :=
 
 Definition is_nil (g : gv) : bool := match g with GNil => true | _ => false end.
 
-Definition wrap32 (z : Z) : Z := ((z + 2147483648) mod 4294967296 - 2147483648)%Z.
+Definition in32b (z : Z) : bool := ((-2147483648 <=? z) && (z <=? 2147483647))%Z.
 
 (* CoerceOut of the built-in scalars / enums / custom scalars on the values of this universe:
    (value stored in the response, error?) *)
 Definition coerce_out (k : lkind) (g : gv) : rv * bool :=
   match k, g with
   | _, GNil => (RNull, false)
-  | LInt, GInt z => (RInt (wrap32 z), false)
-  | LInt, GStr s => (RStr s, true)                     (* ParseInt fails: the string is returned with the error *)
+  | LInt, GInt z => if in32b z then (RInt z, false) else (RNull, true)   (* outside 32 bits: error, no wrapping *)
   | LString, GStr s => (RStr s, false)
   | LString, GInt z => (RStrOfInt z, false)
   | LString, GBool b => (RStrOfBool b, false)
   | LBool, GBool b => (RBool b, false)
-  | LBool, GStr s => (RStr s, true)                    (* ParseBool fails: leaks *)
   | LID, GStr s => (RStr s, false)
   | LID, GInt z => (RStrOfInt z, false)
   | LFloat, GInt z => (RFloatOfInt z, false)
-  | LFloat, GStr s => (RStr s, true)                   (* ParseFloat fails: leaks *)
   | LEnum _, GSym e => (REnum e, false)
   | LEnum _, GStr s => (RStr s, false)                 (* any string passes as an enum value *)
   | LCustom, GStr s => (RStr s, false)                 (* `scalar X` in SDL is a stringScalar *)
@@ -181,7 +178,7 @@ Fixpoint coerce_in (S : schema) (t : ty) (v : value) : option value :=
   | TNamed n =>
       match lookup n S, v with
       | _, VNull => Some VNull
-      | Some (DLeaf LInt), VInt z => Some (VInt (wrap32 z))
+      | Some (DLeaf LInt), VInt z => if in32b z then Some (VInt z) else None
       | Some (DLeaf LString), VStr s => Some (VStr s)
       | Some (DLeaf LBool), VBool b => Some (VBool b)
       | Some (DLeaf LID), VStr s => Some (VStr s)
